@@ -343,7 +343,14 @@ async function execHistory(T, run, base) {
         for (const f of files) {
           if (!watched(f).length) continue; // never read by a build: the session holds nothing of it
           if (!fs.existsSync(abs(f))) {
-            comparable = false; // a watched file that is gone: the loop has no unlink handler, outside C14's quantifier
+            // a watched file that is gone: the loop has no unlink handler. For the ENTRY POINT that is outside C14's
+            // quantifier (the session goes on compiling what it holds). Any other file is reached through import
+            // resolutions only, which the session re-validates (or asks of the host) in every build: comparable
+            if (f === run.project.entry) comparable = false;
+            else {
+              res.compared_while_a_watched_file_was_gone = (res.compared_while_a_watched_file_was_gone || 0) + 1;
+              dirtySinceBuild = true;
+            }
             continue;
           }
           const disk = fs.readFileSync(abs(f), "utf8");
@@ -662,6 +669,7 @@ async function runRange(lo, hi) {
       agg.compared_with_a_fresh_one_shot_process += res.compared || 0;
       agg.change_events += res.events || 0;
       agg.builds_in_watch_sessions += res.builds || 0;
+      agg.checkpoints_reached_while_a_watched_file_other_than_the_entry_point_was_gone = (agg.checkpoints_reached_while_a_watched_file_other_than_the_entry_point_was_gone || 0) + (res.compared_while_a_watched_file_was_gone || 0);
       if (idx >= WS_BASE && ONESHOT) {
         agg.projects_with_a_package.projects++;
         agg.projects_with_a_package.packages_laid_out_as_symbolic_links += res.linked || 0;
